@@ -1,5 +1,7 @@
 package h
 
+import "encoding/json"
+
 // substitute replaces column references x1..x3 of a call expression by literals
 // (scalar arguments only).
 func substitute(e Node, doc map[string]any, tdoc Node) (Node, bool) {
@@ -100,7 +102,13 @@ func checkC18(c Node) Verdict {
 		forms = append(forms, form18{"rows2", "SELECT " + expr + " AS v FROM t", one(FromTagged(tdoc), FromTagged(doc2)), -2, ""})
 	}
 	for _, f := range forms {
-		out := Run(f.doc(), f.sql, false, Opts(nil, nil, consts)...)
+		if fam := c["fam"].(string); fam == "decode" || fam == "roundtrip" || fam == "encode" || fam == "pair" {
+			// an earlier call that is rejected (unknown base) must leave nothing behind for this one
+			Run(map[string]any{}, "SELECT ENCODE('left behind', 'base16') AS v FROM dual", false)
+			v.Execs++
+		}
+		// the document as a caller gets it from encoding/json (whose slices usually have spare capacity)
+		out := Run(jsonDecoded(f.doc()), f.sql, false, Opts(nil, nil, consts)...)
 		v.Execs++
 		fsig := append(append([]string{}, sig...), "form:"+f.name)
 		if out.Panic != nil {
@@ -140,3 +148,16 @@ func checkC18(c Node) Verdict {
 }
 
 func init() { Replay["C18"] = checkC18 }
+
+// jsonDecoded passes a document through encoding/json.
+func jsonDecoded(doc map[string]any) map[string]any {
+	b, err := json.Marshal(doc)
+	if err != nil {
+		return doc
+	}
+	var out map[string]any
+	if json.Unmarshal(b, &out) != nil {
+		return doc
+	}
+	return out
+}
